@@ -639,6 +639,28 @@ pub fn c06(tier: Tier) -> i32 {
             }
         }
     }
+    // (b') short reads with interrupted reads in between (one or two bytes per read, an interrupt before
+    // every read or before single reads): no fabricated record, no early end
+    for &format in &[Format::Fasta, Format::Fastq] {
+        for data in small_inputs(format, tier) {
+            let rs = reference(format, &data);
+            let caps: Vec<usize> = hist_caps(&data, &rs, tier).into_iter().filter(|c| tier == Tier::Thorough || c % 3 != 1 || *c > data.len()).collect();
+            for cap in caps {
+                for chunk in [Chunk::Fixed(1), Chunk::Fixed(2)] {
+                    let mut pats = vec![IntPat::EveryOther];
+                    for a in 0..4u64 {
+                        pats.push(IntPat::Mask(1 << a));
+                    }
+                    for int in pats {
+                        let env = Env { format, cap, chunk, int, policy: PolKind::Std, fault: None };
+                        let mut sc = mk(vec![Op::N, Op::SA, Op::E(2)])(&rs, &env);
+                        sc.data = data.clone();
+                        scenarios.push(sc);
+                    }
+                }
+            }
+        }
+    }
     let n_fault = scenarios.len() - n_policy;
     // (c) binary / truncated / malformed class strings with a short alphabet
     let maxlen = if tier == Tier::Quick { 5 } else { 7 };
@@ -665,7 +687,7 @@ pub fn c06(tier: Tier) -> i32 {
         prop: "C06",
         tier,
         state_cap: if tier == Tier::Quick { 3000 } else { 60000 },
-        rule: format!("explicit-state BFS to fixpoint with histories continued past errors and end of input: (a) {} scenarios with refusing / slowly growing policies (refuse at once, +1 up to cap+2, doubling up to 2*cap) and alphabet {{next, read_record_set, exact(2), seek first/last, install permissive policy}}; (b) {} scenarios with one injected source error at EVERY source call index (reads and seeks), chunking all/3; (c) {} scenarios = every class string of length <= {} (both formats, binary/truncated/malformed) x every capacity x {{Std, refusing}} with alphabet {{next, set, exact(2)}}; oracle on every transition: no panic, per-call source-call budget (no hang), every record handed out (also by iterating a record set after a failed fill) is a record of the input, records after an error in increasing order; a successful seek re-establishes the strict reference oracle", n_policy, n_fault, n_class, maxlen),
+        rule: format!("explicit-state BFS to fixpoint with histories continued past errors and end of input: (a) {} scenarios with refusing / slowly growing policies (refuse at once, +1 up to cap+2, doubling up to 2*cap) and alphabet {{next, read_record_set, exact(2), seek first/last, install permissive policy}}; (b) {} scenarios with one injected source error at EVERY source call index (reads and seeks), chunking all/3, plus short reads (1 or 2 bytes) with an interrupted read before every read or before one of the first four; (c) {} scenarios = every class string of length <= {} (both formats, binary/truncated/malformed) x every capacity x {{Std, refusing}} with alphabet {{next, set, exact(2)}}; oracle on every transition: no panic, per-call source-call budget (no hang), every record handed out (also by iterating a record set after a failed fill) is a record of the input, records after an error in increasing order; a successful seek re-establishes the strict reference oracle", n_policy, n_fault, n_class, maxlen),
         scenarios,
         plain_depth: 0,
         plain_every: 1,
